@@ -234,10 +234,13 @@ func c20(c *Ctx) {
 	}
 	// delimiter-based
 	var cut *ssa.Call
-	for _, cc := range callsNamed(dec, "strings.Cut") {
-		if core.Strip(cc.Call.Args[0]) == rest {
-			cut = cc
-		}
+	for _, site := range core.SplitCalls(dec, nil, "strings.Cut") {
+		cc := site.Instr.(*ssa.Call)
+		site.In(func() {
+			if core.Strip(cc.Call.Args[0]) == rest {
+				cut = cc
+			}
+		})
 	}
 	// ... or rest[strings.Index(rest, sep)+len(sep):]
 	var idxCut *ssa.Slice
@@ -280,10 +283,10 @@ func c20(c *Ctx) {
 		appended := false
 		for _, b := range dec.Blocks {
 			for _, in := range b.Instrs {
-				if bo, isBo := in.(*ssa.BinOp); isBo && bo.Op.String() == "+" && bo.Y == after {
+				if bo, isBo := in.(*ssa.BinOp); isBo && bo.Op.String() == "+" && (bo.Y == after || sameAs(bo.Y, after)) {
 					appended = true
 				}
-				if wc, isW := core.IsCallTo(in, "(*strings.Builder).WriteString"); isW && len(wc.Args) == 2 && core.Strip(wc.Args[1]) == after {
+				if wc, isW := core.IsCallTo(in, "(*strings.Builder).WriteString"); isW && len(wc.Args) == 2 && (core.Strip(wc.Args[1]) == after || sameAs(wc.Args[1], after)) {
 					appended = true
 				}
 			}
